@@ -252,16 +252,17 @@ pub fn vf_chars_count(s: &str) -> (n: usize)
     ensures n == s@.len(),
 { s.chars().count() }
 
-// E6: From<Pointer> for QueryRef (its body is a proved unit, QueryRef::from_pointer; that `Into::into`
-// dispatches to it is std's blanket impl) and From<T> for JsonPathError (format!: opaque)
-impl<'a, T: Queryable> VfInto<QueryRef<'a, T>> for Pointer<'a, T> {
-    open spec fn vf_into_spec(self) -> QueryRef<'a, T> { QueryRef(self.inner, self.path) }
-    #[verifier::external_body]
-    fn vf_into(self) -> (r: QueryRef<'a, T>) { unimplemented!() }
-}
+// E6: From<T> for JsonPathError (format!: opaque)
 pub uninterp spec fn error_of<T: Queryable>(v: T) -> JsonPathError;
 impl<T: Queryable> VfInto<JsonPathError> for T {
     open spec fn vf_into_spec(self) -> JsonPathError { error_of(self) }
     #[verifier::external_body]
     fn vf_into(self) -> (r: JsonPathError) { unimplemented!() }
+}
+
+// From<Pointer> for QueryRef: the std contract of From::from is `obeys_from_spec() ==> r == from_spec(v)`;
+// the real body of the impl is checked against this from_spec (unit QueryRef::from_pointer)
+impl<'a, T: Queryable> vstd::std_specs::convert::FromSpecImpl<Pointer<'a, T>> for QueryRef<'a, T> {
+    open spec fn obeys_from_spec() -> bool { true }
+    open spec fn from_spec(p: Pointer<'a, T>) -> Self { QueryRef(p.inner, p.path) }
 }
